@@ -222,7 +222,7 @@ def plan(ctx):
             for first in range(-1, len(SEG)):
                 tasks.append(("checks.C15", "task_seqs", (entry, variant, k, first), b, "s"))
     for b in BACKENDS:
-        tasks.append(("checks.C15", "task_mixed", (4 if ctx.tier == "quick" else 5, 2), b, "m"))
+        tasks.append(("checks.C15", "task_mixed", (5, 2), b, "m"))
     ctx.notes["bounds"] = {"segment_alphabet": SEG, "max_segments": k, "entry_points": [list(e) for e in ENTRY]}
     return tasks
 
